@@ -307,6 +307,12 @@ func c05Run(c *Ctx) {
 		c.Violate("valid-input-rejected", "ini error %v, cli error %v", iniErr, cliErr)
 		return
 	}
+	if msg := aliasDamage(d); msg != "" {
+		// (an option fed from a higher-ranked source gets a NEW value; the list or map the program stored in the
+		// field beforehand - possibly shared with another option that relies on it - stays the program's)
+		c.Violate("program-data-overwritten", "%s", msg)
+		return
+	}
 	// expected: the highest-ranked source that is present
 	top := "zero"
 	var vals []string
